@@ -8,6 +8,7 @@ import (
 	"time"
 
 	"github.com/tonkeeper/tongo/boc"
+	"github.com/tonkeeper/tongo/tlb"
 
 	"verifharness/internal/core"
 	"verifharness/internal/gen"
@@ -84,6 +85,35 @@ var cellHistory = &core.Check{Name: "c20/cell-history", Quick: 600, Thorough: 60
 	}
 	if err := convert("fresh tree"); err != nil {
 		return err
+	}
+	// the same tree held as a tlb.Any that the caller has looked into (its operation code, all bits, a
+	// reference): the JSON form is that of the value, not of what has not been read yet
+	{
+		a := tlb.Any(*root)
+		ac := (*boc.Cell)(&a)
+		switch c.Choose("any.read", 4) {
+		case 1:
+			_, _ = ac.ReadUint(min(32, ac.BitsAvailableForRead()))
+		case 2:
+			_, _ = ac.ReadBits(ac.BitsAvailableForRead())
+		case 3:
+			_, _ = ac.ReadBit()
+			_, _ = ac.NextRef()
+		}
+		doc, err := json.Marshal(a)
+		if err != nil {
+			return fmt.Errorf("json.Marshal of a tlb.Any: %v", err)
+		}
+		var back tlb.Any
+		if err := json.Unmarshal(doc, &back); err != nil {
+			return fmt.Errorf("tlb.Any: own JSON %s does not parse: %v", trunc(string(doc)), err)
+		}
+		bc := boc.Cell(back)
+		bc.ResetCounters()
+		h, _ := bc.Hash()
+		if w := image().ReprHash(); !bytes.Equal(h, w) {
+			return fmt.Errorf("a tlb.Any that was partly read before (mode %d): its JSON %s parses back to a cell with hash %x, the value hashes to %x", c.Choose("any.read.again", 1), trunc(string(doc)), h, w)
+		}
 	}
 	steps := c.Range("steps", 1, 4)
 	for s := 1; s <= steps; s++ {
